@@ -436,6 +436,10 @@ func suffixRank(v, P ssa.Value, depth int) int {
 		if k, ok := constInt(x.Low); ok && k > 0 {
 			return 2
 		}
+		// 1 ≤ low by linear reasoning over Index results known non-negative here
+		if linLeq(FactsAt(x), linConst(1), linVal(x.Low)) {
+			return 2
+		}
 		if bo, ok := x.Low.(*ssa.BinOp); ok && bo.Op == token.ADD {
 			for _, pair := range [][2]ssa.Value{{bo.X, bo.Y}, {bo.Y, bo.X}} {
 				if k, ok := constInt(pair[1]); ok && k >= 2 {
